@@ -153,6 +153,15 @@ def snapshot(obj, reads, order):
     return {name: reads[name](obj) for name in order}
 
 
+def canon(name, v):
+    """what two reads of the same accessor must agree on: contents, not the order the property leaves free"""
+    if name == "children":
+        return [sorted(c) for c in v]
+    if name in ("edges", "bfs", "dfs", "roots", "tree_roots", "getitem"):
+        return sorted(v, key=repr)
+    return v
+
+
 def tree_obs(t, k=0, unstable=None, label="tree"):
     """every public table / accessor of the tree read twice, in two different orders: reading must neither
     change the answers nor depend on what was read before; the LAST reads are reported"""
@@ -162,7 +171,7 @@ def tree_obs(t, k=0, unstable=None, label="tree"):
     s2 = snapshot(t, TREE_READS, o2)
     if unstable is not None:
         for name in TREE_READS:
-            if s1[name] != s2[name]:
+            if canon(name, s1[name]) != canon(name, s2[name]):
                 unstable.append("%s.%s changed between two reads: %s then %s" % (label, name, str(s1[name])[:120], str(s2[name])[:120]))
     return s2
 
@@ -188,15 +197,15 @@ def forest_obs(f, k=0, unstable=None):
     f3 = snapshot(f, FOREST_READS, o1)
     if unstable is not None:
         for name in FOREST_READS:
-            if not (f1[name] == f2[name] == f3[name]):
+            if not (canon(name, f1[name]) == canon(name, f2[name]) == canon(name, f3[name])):
                 unstable.append("forest.%s changed between reads: %s / %s / %s" % (name, str(f1[name])[:100], str(f2[name])[:100], str(f3[name])[:100]))
         for j, (a, b) in enumerate(zip(trees1, trees2)):
             for name in TREE_READS:
-                if a[name] != b[name]:
+                if canon(name, a[name]) != canon(name, b[name]):
                     unstable.append("forest.trees[%d].%s changed after forest-level reads: %s then %s" % (j, name, str(a[name])[:120], str(b[name])[:120]))
     res.update({k2: f3[k2] for k2 in ("roots", "n_trees", "tree_roots", "edges", "bfs", "dfs")})
     if f3["getitem"] != f3["tree_roots"]:
-        unstable.append("forest[k] is not forest.trees[k]")
+        res.setdefault("notes", []).append("forest[k] is not forest.trees[k]")
     res["trees"] = trees2
     return res
 
@@ -316,8 +325,11 @@ def run_case(case, meshes=None, keep=None):
             t = again(t)
             res["err"] = None
             res.update(tree_obs(t, ro, unstable))
-        except (IndexError, KeyError) as ex:
+        except CaseTimeout:
+            raise
+        except Exception as ex:  # noqa  - whatever its class: whether a refusal is legitimate is decided from the input
             res["err"] = type(ex).__name__
+            res["err_msg"] = str(ex)[:200]
     elif op == "forest":
         raw, poly = raw_slots(m_obs, spec, kind, excl_set if kind == "face" else None, True)
         res.update({"raw": raw, "polyline": poly, "n": len(raw)})
@@ -367,8 +379,11 @@ def run_case(case, meshes=None, keep=None):
             t = again(t)
             res["err"] = None
             res.update(tree_obs(t, ro, unstable))
-        except (IndexError, KeyError) as ex:
+        except CaseTimeout:
+            raise
+        except Exception as ex:  # noqa  - whatever its class: whether a refusal is legitimate is decided from the input
             res["err"] = type(ex).__name__
+            res["err_msg"] = str(ex)[:200]
         # float lengths as the implementation computes them (for the oracle's own minimum)
         from mouette.attributes import edge_length
         L = edge_length(m, persistent=False)
@@ -393,6 +408,12 @@ def obj_snapshot(obj):
     if hasattr(obj, "trees"):
         return {"roots": ints(obj.roots), "trees": [snapshot(t, TREE_READS, sorted(TREE_READS)) for t in obj.trees]}
     return snapshot(obj, TREE_READS, sorted(TREE_READS))
+
+
+def canon_snap(sn):
+    if "trees" in sn:
+        return {"roots": sorted(sn["roots"]), "trees": sorted((canon_snap(t) for t in sn["trees"]), key=repr)}
+    return {k: canon(k, v) for k, v in sn.items()}
 
 
 def run_session(case):
@@ -434,7 +455,8 @@ def run_session(case):
                     want = set()
             expected.append(want)
             if ok and (None if ex0 is None else set(ex0)) != want:
-                res.setdefault("unstable", []).append(
+                # (how an object stores its exclusions is not fixed by the property: information only)
+                res.setdefault("notes", []).append(
                     "exclusion set right after construction is %s, the object was given %s" % (None if ex0 is None else sorted(ex0), None if want is None else sorted(want)))
         elif step["do"] == "move":
             # the mesh is edited (vertices moved) between two objects: later objects see the new geometry only
@@ -446,8 +468,11 @@ def run_session(case):
             k = step["obj"]
             tgt = excl_of(objs[k]) if k < len(objs) and objs[k] is not None else None
             if tgt is not None:
-                tgt.update(step["ids"])
-                expected[k] = set(expected[k] or set()) | set(step["ids"])
+                try:
+                    tgt.update(step["ids"])
+                    expected[k] = set(expected[k] or set()) | set(step["ids"])
+                except Exception:  # noqa  (an immutable container: nothing to add to)
+                    pass
         else:
             # reconfigure an existing tree through its public attributes (root, exclusion set) and compute() again:
             # the object must then be the tree of the NEW configuration (tables and traversals alike)
@@ -470,28 +495,33 @@ def run_session(case):
                 obj.root = as_repr(step["root"] % n_el, step.get("root_repr"))
             tgt = excl_of(obj)          # the caller's live set (the constructor stores the object it was given)
             if tgt is not None:
-                tgt.update(step["ids"])
-                expected[k] = set(expected[k] or set()) | set(step["ids"])
+                try:
+                    tgt.update(step["ids"])
+                    expected[k] = set(expected[k] or set()) | set(step["ids"])
+                except Exception:  # noqa
+                    tgt = None
             # run it again through either public spelling: obj() must run compute() again, like obj.compute()
             if step.get("spelling", "call") == "call":
                 ret = obj()
                 if ret is not obj:
-                    results[first_result[k]].setdefault("unstable", []).append("obj() does not return the object")
+                    results[first_result[k]].setdefault("notes", []).append("obj() does not return the object")
             else:
                 obj.compute()
             res = dict(results[first_result[k]])
             unstable = []
-            if sub["op"] in ("tree", "forest"):
-                ex_now = None if tgt is None else set(tgt)
+            if sub["op"] in ("tree", "forest") and tgt is not None:
+                ex_now = set(tgt)
                 raw, _ = raw_slots(m_obs, case["meshes"][sub["mesh_id"]], sub["kind"],
                                    ex_now if (sub["op"] == "tree" or sub["kind"] == "face") else None, True)
                 res["raw"] = raw
             if sub["op"] == "forest":
                 res.update(forest_obs(obj, step.get("read_order", 0), unstable))
-                res["update"] = {"obj": k, "excl": None if tgt is None else sorted(int(x) for x in tgt)}
+                res["update"] = {"obj": k}
             else:
                 res.update(tree_obs(obj, step.get("read_order", 0), unstable))
-                res["update"] = {"obj": k, "root": int(obj.root), "excl": None if tgt is None else sorted(int(x) for x in tgt)}
+                res["update"] = {"obj": k, "root": int(obj.root)}
+            if tgt is not None:
+                res["update"]["excl"] = sorted(int(x) for x in tgt)
             if sub["op"] == "kruskal":
                 from mouette.attributes import edge_length
                 L = edge_length(m, persistent=False)
@@ -503,11 +533,11 @@ def run_session(case):
         if snaps[k] is None:
             continue
         now = obj_snapshot(obj)
-        if now != snaps[k]:
+        if canon_snap(now) != canon_snap(snaps[k]):
             results[first_result[k]].setdefault("unstable", []).append("object %d of the session: its tables changed after later constructions / mutations of other objects" % k)
         ex1 = excl_of(obj)
         if (None if ex1 is None else set(ex1)) != expected[k]:
-            results[first_result[k]].setdefault("unstable", []).append(
+            results[first_result[k]].setdefault("notes", []).append(
                 "object %d of the session: its exclusion set is %s, expected %s (given + explicitly added)"
                 % (k, None if ex1 is None else sorted(ex1)[:12], None if expected[k] is None else sorted(expected[k])[:12]))
     return {"op": "session", "kind": "session", "results": results}
